@@ -119,4 +119,323 @@ theorem equal_trans {a b c : Dec} (h1 : Dec.equal a b = true) (h2 : Dec.equal b 
 
 end Dec
 
+/-! ### induction over `Val` with membership hypotheses (the nested inductive has no usable `induction`) -/
+
+theorem Val.ind_mem {motive : Val → Prop}
+    (null : motive .null) (bool : ∀ b, motive (.bool b)) (str : ∀ s, motive (.str s)) (num : ∀ n, motive (.num n))
+    (arr : ∀ t xs, (∀ x ∈ xs, motive x) → motive (.arr t xs))
+    (obj : ∀ kvs, (∀ k x, (k, x) ∈ kvs → motive x) → motive (.obj kvs))
+    (foreign : ∀ t, motive (.foreign t)) : ∀ v, motive v := by
+  intro v
+  exact Val.rec (motive_1 := motive) (motive_2 := fun xs => ∀ x ∈ xs, motive x)
+    (motive_3 := fun kvs => ∀ k x, (k, x) ∈ kvs → motive x) (motive_4 := fun p => motive p.2)
+    null bool str num (fun t xs ih => arr t xs ih) (fun kvs ih => obj kvs ih) foreign
+    (by simp)
+    (fun h t ih1 ih2 x hx => by
+      cases List.mem_cons.mp hx with
+      | inl e => exact e ▸ ih1
+      | inr m => exact ih2 x m)
+    (by simp)
+    (fun h t ih1 ih2 k x hx => by
+      cases List.mem_cons.mp hx with
+      | inl e => subst e; exact ih1
+      | inr m => exact ih2 k x m)
+    (fun k v ih => ih) v
+
+/-! ### lists: pigeonhole -/
+
+/-- a duplicate-free list contained in a list of the same length contains it -/
+theorem subset_of_nodup_length {α : Type} [BEq α] [LawfulBEq α] :
+    ∀ (l1 l2 : List α), l1.Nodup → (∀ a ∈ l1, a ∈ l2) → l1.length = l2.length → ∀ a ∈ l2, a ∈ l1
+  | [], l2, _, _, hlen => by
+    cases l2 with
+    | nil => simp
+    | cons b l2 => simp at hlen
+  | a :: l1, l2, hnd, hsub, hlen => by
+    have ⟨hnot, hnd'⟩ := List.nodup_cons.mp hnd
+    have ha : a ∈ l2 := hsub a (List.mem_cons_self ..)
+    have hlen' : l1.length = (l2.erase a).length := by
+      rw [List.length_erase_of_mem ha]; simp at hlen; omega
+    have hsub' : ∀ b ∈ l1, b ∈ l2.erase a := by
+      intro b hb
+      have hne : b ≠ a := fun e => hnot (e ▸ hb)
+      exact (List.mem_erase_of_ne hne).mpr (hsub b (List.mem_cons_of_mem _ hb))
+    have ih := subset_of_nodup_length l1 (l2.erase a) hnd' hsub' hlen'
+    intro c hc
+    by_cases hca : c = a
+    · subst hca; exact List.mem_cons_self ..
+    · exact List.mem_cons_of_mem _ (ih c ((List.mem_erase_of_ne hca).mpr hc))
+
+/-- a duplicate-free list contained in another is no longer than it -/
+theorem length_le_of_nodup_subset {α : Type} [BEq α] [LawfulBEq α] :
+    ∀ (l1 l2 : List α), l1.Nodup → (∀ a ∈ l1, a ∈ l2) → l1.length ≤ l2.length
+  | [], _, _, _ => by simp
+  | a :: l1, l2, hnd, hsub => by
+    have ⟨hnot, hnd'⟩ := List.nodup_cons.mp hnd
+    have ha : a ∈ l2 := hsub a (List.mem_cons_self ..)
+    have hsub' : ∀ b ∈ l1, b ∈ l2.erase a := by
+      intro b hb
+      have hne : b ≠ a := fun e => hnot (e ▸ hb)
+      exact (List.mem_erase_of_ne hne).mpr (hsub b (List.mem_cons_of_mem _ hb))
+    have ih := length_le_of_nodup_subset l1 (l2.erase a) hnd' hsub'
+    rw [List.length_erase_of_mem ha] at ih
+    have : 0 < l2.length := List.length_pos_of_mem ha
+    simp only [List.length_cons]; omega
+
+/-! ### `objLookup` -/
+
+theorem objLookup_mem {k : Bytes} {v : Val} : ∀ {xs : List (Bytes × Val)}, objLookup k xs = some v → (k, v) ∈ xs
+  | [], h => by simp [objLookup] at h
+  | (k', v') :: rest, h => by
+    simp only [objLookup] at h
+    split at h
+    · next e => cases h; subst e; exact List.mem_cons_self ..
+    · exact List.mem_cons_of_mem _ (objLookup_mem h)
+
+theorem objLookup_of_mem {k : Bytes} {v : Val} :
+    ∀ {xs : List (Bytes × Val)}, (xs.map Prod.fst).Nodup → (k, v) ∈ xs → objLookup k xs = some v
+  | [], _, h => by simp at h
+  | (k', v') :: rest, hnd, h => by
+    simp only [List.map_cons, List.nodup_cons] at hnd
+    simp only [objLookup]
+    cases List.mem_cons.mp h with
+    | inl e => cases e; simp
+    | inr m =>
+      have hne : k ≠ k' := by
+        intro e; subst e
+        exact hnd.1 (List.mem_map.mpr ⟨(k, v), m, rfl⟩)
+      simp only [hne, if_false]
+      exact objLookup_of_mem hnd.2 m
+
+theorem objLookup_of_key_mem {k : Bytes} :
+    ∀ {xs : List (Bytes × Val)}, k ∈ xs.map Prod.fst → ∃ v, objLookup k xs = some v
+  | [], h => by simp at h
+  | (k', v') :: rest, h => by
+    simp only [objLookup]
+    by_cases e : k = k'
+    · exact ⟨v', by simp [e]⟩
+    · simp only [e, if_false]
+      simp only [List.map_cons, List.mem_cons] at h
+      cases h with
+      | inl h => exact absurd h e
+      | inr h => exact objLookup_of_key_mem h
+
+/-- looking a key up in a duplicate-free member list does not depend on the order of the members -/
+theorem objLookup_perm {xs ys : List (Bytes × Val)} (hn : (xs.map Prod.fst).Nodup) (hp : xs.Perm ys) (k : Bytes) :
+    objLookup k xs = objLookup k ys := by
+  have hn' : (ys.map Prod.fst).Nodup := (hp.map _).nodup_iff.mp hn
+  apply Option.ext
+  intro v
+  constructor
+  · intro h; exact objLookup_of_mem hn' (hp.mem_iff.mp (objLookup_mem h))
+  · intro h; exact objLookup_of_mem hn (hp.mem_iff.mpr (objLookup_mem h))
+
+/-! ### `equal`, `equalL`, `equalF` element-wise -/
+
+theorem toDecimal_some_num {y : Val} {d : Dec} (h : toDecimal y = some d) : ∃ m, y = .num m := by
+  cases y <;> simp [toDecimal] at h
+  exact ⟨_, rfl⟩
+
+theorem equal_num_left_iff (n : Num) (y : Val) :
+    equal (.num n) y = true ↔
+      ∃ xd yd, toDecimal (.num n) = some xd ∧ toDecimal y = some yd ∧ Dec.equal xd yd = true := by
+  simp only [equal]
+  cases toDecimal (.num n) with
+  | none => simp
+  | some xd =>
+    cases toDecimal y with
+    | none => simp
+    | some yd => simp
+
+theorem equalL_refl_of : ∀ {xs : List Val}, (∀ x ∈ xs, equal x x = true) → equalL xs xs = true
+  | [], _ => by simp [equalL]
+  | x :: xs, h => by
+    simp only [equalL, Bool.and_eq_true]
+    exact ⟨h x (List.mem_cons_self ..), equalL_refl_of (fun y hy => h y (List.mem_cons_of_mem _ hy))⟩
+
+theorem equalL_symm_of : ∀ {xs ys : List Val}, (∀ x ∈ xs, ∀ y ∈ ys, equal x y = equal y x) → equalL xs ys = equalL ys xs
+  | [], [], _ => rfl
+  | [], _ :: _, _ => by simp [equalL]
+  | _ :: _, [], _ => by simp [equalL]
+  | x :: xs, y :: ys, h => by
+    simp only [equalL]
+    rw [h x (List.mem_cons_self ..) y (List.mem_cons_self ..),
+      equalL_symm_of (fun a ha b hb => h a (List.mem_cons_of_mem _ ha) b (List.mem_cons_of_mem _ hb))]
+
+theorem equalL_trans_of : ∀ {xs ys zs : List Val},
+    (∀ x ∈ xs, ∀ y ∈ ys, ∀ z ∈ zs, equal x y = true → equal y z = true → equal x z = true) →
+    equalL xs ys = true → equalL ys zs = true → equalL xs zs = true
+  | [], [], [], _, _, _ => by simp [equalL]
+  | [], [], _ :: _, _, _, h => by simp [equalL] at h
+  | [], _ :: _, _, _, h, _ => by simp [equalL] at h
+  | _ :: _, [], _, _, h, _ => by simp [equalL] at h
+  | _ :: _, _ :: _, [], _, _, h => by simp [equalL] at h
+  | x :: xs, y :: ys, z :: zs, h, h1, h2 => by
+    simp only [equalL, Bool.and_eq_true] at h1 h2 ⊢
+    exact ⟨h x (List.mem_cons_self ..) y (List.mem_cons_self ..) z (List.mem_cons_self ..) h1.1 h2.1,
+      equalL_trans_of (fun a ha b hb c hc =>
+        h a (List.mem_cons_of_mem _ ha) b (List.mem_cons_of_mem _ hb) c (List.mem_cons_of_mem _ hc)) h1.2 h2.2⟩
+
+/-- `equalF xs ys`: every member of `xs` is found under its key in `ys`, with an equal value -/
+theorem equalF_iff (xs ys : List (Bytes × Val)) :
+    equalF xs ys = true ↔ ∀ k x, (k, x) ∈ xs → ∃ y, objLookup k ys = some y ∧ equal x y = true := by
+  induction xs with
+  | nil => simp [equalF]
+  | cons p xs ih =>
+    obtain ⟨k, x⟩ := p
+    simp only [equalF, Bool.and_eq_true, ih]
+    constructor
+    · rintro ⟨h1, h2⟩ k' x' hm
+      cases List.mem_cons.mp hm with
+      | inl e =>
+        cases e
+        cases hl : objLookup k ys with
+        | none => simp [hl] at h1
+        | some y => exact ⟨y, rfl, by simpa [hl] using h1⟩
+      | inr m => exact h2 k' x' m
+    · intro h
+      refine ⟨?_, fun k' x' m => h k' x' (List.mem_cons_of_mem _ m)⟩
+      obtain ⟨y, hl, he⟩ := h k x (List.mem_cons_self ..)
+      simp [hl, he]
+
+theorem equalF_refl_of {xs : List (Bytes × Val)} (hn : (xs.map Prod.fst).Nodup)
+    (h : ∀ k x, (k, x) ∈ xs → equal x x = true) : equalF xs xs = true :=
+  (equalF_iff xs xs).mpr fun k x hm => ⟨x, objLookup_of_mem hn hm, h k x hm⟩
+
+/-- one direction of symmetry for member lists with duplicate-free keys and equal lengths -/
+theorem equalF_symm_of {xs ys : List (Bytes × Val)} (hx : (xs.map Prod.fst).Nodup) (hy : (ys.map Prod.fst).Nodup)
+    (hlen : xs.length = ys.length)
+    (hsym : ∀ k x y, (k, x) ∈ xs → (k, y) ∈ ys → equal x y = true → equal y x = true)
+    (h : equalF xs ys = true) : equalF ys xs = true := by
+  rw [equalF_iff] at h ⊢
+  have hsub : ∀ k ∈ xs.map Prod.fst, k ∈ ys.map Prod.fst := by
+    intro k hk
+    obtain ⟨⟨k', x⟩, hm, rfl⟩ := List.mem_map.mp hk
+    obtain ⟨y, hl, _⟩ := h k' x hm
+    exact List.mem_map.mpr ⟨(k', y), objLookup_mem hl, rfl⟩
+  have hsup := subset_of_nodup_length _ _ hx hsub (by simpa using hlen)
+  intro k y hm
+  have hk : k ∈ xs.map Prod.fst := hsup k (List.mem_map.mpr ⟨(k, y), hm, rfl⟩)
+  obtain ⟨x, hlx⟩ := objLookup_of_key_mem hk
+  have hmx := objLookup_mem hlx
+  obtain ⟨y', hly, he⟩ := h k x hmx
+  have hy' : objLookup k ys = some y := objLookup_of_mem hy hm
+  rw [hy'] at hly
+  cases hly
+  exact ⟨x, hlx, hsym k x y hmx hm he⟩
+
+theorem equalF_trans_of {xs ys zs : List (Bytes × Val)}
+    (htr : ∀ k x y z, (k, x) ∈ xs → (k, y) ∈ ys → (k, z) ∈ zs →
+      equal x y = true → equal y z = true → equal x z = true)
+    (h1 : equalF xs ys = true) (h2 : equalF ys zs = true) : equalF xs zs = true := by
+  rw [equalF_iff] at h1 h2 ⊢
+  intro k x hm
+  obtain ⟨y, hly, hxy⟩ := h1 k x hm
+  obtain ⟨z, hlz, hyz⟩ := h2 k y (objLookup_mem hly)
+  exact ⟨z, hlz, htr k x y z hm (objLookup_mem hly) (objLookup_mem hlz) hxy hyz⟩
+
+/-- the right member list may be permuted (duplicate-free keys) -/
+theorem equalF_perm_right {ys ys' : List (Bytes × Val)} (hn : (ys.map Prod.fst).Nodup) (hp : ys.Perm ys')
+    (xs : List (Bytes × Val)) : equalF xs ys = equalF xs ys' := by
+  rw [Bool.eq_iff_iff, equalF_iff, equalF_iff]
+  simp only [objLookup_perm hn hp]
+
+/-- the left member list may be permuted -/
+theorem equalF_perm_left {xs xs' : List (Bytes × Val)} (hp : xs.Perm xs') (ys : List (Bytes × Val)) :
+    equalF xs ys = equalF xs' ys := by
+  rw [Bool.eq_iff_iff, equalF_iff, equalF_iff]
+  constructor
+  · intro h k x hm; exact h k x (hp.mem_iff.mpr hm)
+  · intro h k x hm; exact h k x (hp.mem_iff.mp hm)
+
+/-- `equalL`: same length and equal elements at every index -/
+theorem equalL_iff : ∀ (xs ys : List Val), equalL xs ys = true ↔
+    xs.length = ys.length ∧ ∀ (i : Nat) (h1 : i < xs.length) (h2 : i < ys.length), equal xs[i] ys[i] = true
+  | [], [] => by simp [equalL]
+  | [], _ :: _ => by simp [equalL]
+  | _ :: _, [] => by simp [equalL]
+  | x :: xs, y :: ys => by
+    simp only [equalL, Bool.and_eq_true, equalL_iff xs ys, List.length_cons, Nat.add_right_cancel_iff]
+    constructor
+    · rintro ⟨h0, hl, hi⟩
+      refine ⟨hl, fun i h1 h2 => ?_⟩
+      cases i with
+      | zero => exact h0
+      | succ i => exact hi i (by omega) (by omega)
+    · rintro ⟨hl, hi⟩
+      exact ⟨hi 0 (by omega) (by omega), hl, fun i h1 h2 => hi (i + 1) (by omega) (by omega)⟩
+
+theorem objLookup_none_of_not_key {k : Bytes} {xs : List (Bytes × Val)} (h : k ∉ xs.map Prod.fst) :
+    objLookup k xs = none := by
+  cases hl : objLookup k xs with
+  | none => rfl
+  | some v => exact absurd (List.mem_map.mpr ⟨(k, v), objLookup_mem hl, rfl⟩) h
+
+/-- with duplicate-free keys, "same number of members and every member of the left found equal in the right"
+    is extensional equality of the two maps: every key is absent from both or bound to equal values in both -/
+theorem equalF_ext {xs ys : List (Bytes × Val)} (hx : (xs.map Prod.fst).Nodup) (hy : (ys.map Prod.fst).Nodup) :
+    (xs.length = ys.length ∧ equalF xs ys = true) ↔
+      ∀ k, (objLookup k xs = none ∧ objLookup k ys = none) ∨
+        ∃ x y, objLookup k xs = some x ∧ objLookup k ys = some y ∧ equal x y = true := by
+  constructor
+  · rintro ⟨hlen, h⟩ k
+    have h' := (equalF_iff xs ys).mp h
+    have hsub : ∀ k ∈ xs.map Prod.fst, k ∈ ys.map Prod.fst := by
+      intro k hk
+      obtain ⟨⟨k', x⟩, hm, rfl⟩ := List.mem_map.mp hk
+      obtain ⟨y, hl, _⟩ := h' k' x hm
+      exact List.mem_map.mpr ⟨(k', y), objLookup_mem hl, rfl⟩
+    have hsup := subset_of_nodup_length _ _ hx hsub (by simpa using hlen)
+    cases hlx : objLookup k xs with
+    | some x =>
+      obtain ⟨y, hly, he⟩ := h' k x (objLookup_mem hlx)
+      exact Or.inr ⟨x, y, rfl, hly, he⟩
+    | none =>
+      cases hly : objLookup k ys with
+      | none => exact Or.inl ⟨rfl, rfl⟩
+      | some y =>
+        obtain ⟨x, hx'⟩ := objLookup_of_key_mem (hsup k (List.mem_map.mpr ⟨(k, y), objLookup_mem hly, rfl⟩))
+        rw [hlx] at hx'; cases hx'
+  · intro h
+    have hxy : ∀ k x, (k, x) ∈ xs → ∃ y, objLookup k ys = some y ∧ equal x y = true := by
+      intro k x hm
+      have hlx := objLookup_of_mem hx hm
+      rcases h k with ⟨h1, _⟩ | ⟨x', y, h1, h2, h3⟩
+      · rw [hlx] at h1; cases h1
+      · rw [hlx] at h1; cases h1; exact ⟨y, h2, h3⟩
+    have hyx : ∀ k ∈ ys.map Prod.fst, k ∈ xs.map Prod.fst := by
+      intro k hk
+      obtain ⟨⟨k', y⟩, hm, rfl⟩ := List.mem_map.mp hk
+      have hly := objLookup_of_mem hy hm
+      rcases h k' with ⟨_, h2⟩ | ⟨x, y', h1, _, _⟩
+      · rw [hly] at h2; cases h2
+      · exact List.mem_map.mpr ⟨(k', x), objLookup_mem h1, rfl⟩
+    have hsub : ∀ k ∈ xs.map Prod.fst, k ∈ ys.map Prod.fst := by
+      intro k hk
+      obtain ⟨⟨k', x⟩, hm, rfl⟩ := List.mem_map.mp hk
+      obtain ⟨y, hl, _⟩ := hxy k' x hm
+      exact List.mem_map.mpr ⟨(k', y), objLookup_mem hl, rfl⟩
+    have l1 := length_le_of_nodup_subset _ _ hx hsub
+    have l2 := length_le_of_nodup_subset _ _ hy hyx
+    simp only [List.length_map] at l1 l2
+    exact ⟨by omega, (equalF_iff xs ys).mpr hxy⟩
+
+/-! ### map-ordered arrays -/
+
+theorem hasEnum2L_false_iff : ∀ {xs : List Val}, Val.hasEnum2L xs = false ↔ ∀ x ∈ xs, x.hasEnum2 = false
+  | [] => by simp [Val.hasEnum2L]
+  | x :: xs => by simp [Val.hasEnum2L, hasEnum2L_false_iff (xs := xs)]
+
+theorem hasEnum2F_false_iff : ∀ {kvs : List (Bytes × Val)},
+    Val.hasEnum2F kvs = false ↔ ∀ k x, (k, x) ∈ kvs → x.hasEnum2 = false
+  | [] => by simp [Val.hasEnum2F]
+  | (k, x) :: kvs => by
+    simp only [Val.hasEnum2F, Bool.or_eq_false_iff, hasEnum2F_false_iff (kvs := kvs), List.mem_cons, Prod.mk.injEq]
+    constructor
+    · rintro ⟨h1, h2⟩ k' x' (⟨_, rfl⟩ | hm)
+      · exact h1
+      · exact h2 k' x' hm
+    · intro h
+      exact ⟨h k x (Or.inl ⟨rfl, rfl⟩), fun k' x' hm => h k' x' (Or.inr hm)⟩
+
 end Jmes
